@@ -497,6 +497,7 @@ const c11devBase = `module d { namespace "urn:d"; prefix d; revision 2020-01-01;
  }
  container one { uses g; }
  container two { uses g; }
+ container uu { list gu { key k; unique "b a"; unique "c"; unique "d b"; leaf k { type string; } leaf a { type string; } leaf b { type string; } leaf c { type string; } leaf d { type string; } } }
  choice pick { default p1; case p1 { leaf pl1 { type string; } } case p2 { leaf pl2 { type string; } container pc2 { leaf in { type string; } } } }
  choice nodef { case n1 { leaf nl1 { type string; } } leaf nl2 { type string; } }
  container mm { leaf-list onlymin { type string; min-elements 1; } leaf-list onlymax { type string; max-elements 5; } list lmin { key k; min-elements 1; leaf k { type string; } } list lmax { key k; max-elements 5; leaf k { type string; } } }
@@ -568,6 +569,13 @@ func c11deviations(c *core.Ctx) {
 		{`deviation /top/a { deviate add { must "../sub"; } }`, "/top/a", false, map[string]string{"must": "../b ;; ../c ;; ../ll ;; ../sub"}},
 		{`deviation /top/li { deviate delete { unique "u1"; } }`, "/top/li", false, map[string]string{"unique": "u3"}},
 		{`deviation /top/li { deviate delete { unique "u3"; } }`, "/top/li", false, map[string]string{"unique": "u1"}},
+		// the unique statements that stay keep the order of their leaves
+		{`deviation /uu/gu { deviate delete { unique "c"; } }`, "/uu/gu", false, map[string]string{"unique": "b a|d b"}},
+		{`deviation /uu/gu { deviate delete { unique "a b"; } }`, "/uu/gu", false, map[string]string{"unique": "c|d b"}},
+		// two deviations in one module, one on each copy of a grouping's list: each copy gets its own
+		{`deviation /one/gl { deviate add { unique "k u4"; } } deviation /two/gl { deviate add { unique "k u1"; } }`, "/one/gl", false, map[string]string{"unique": "u1|u2 u3|u4|k u4"}},
+		{`deviation /two/gl { deviate add { unique "k u1"; } } deviation /one/gl { deviate add { unique "k u4"; } }`, "/one/gl", false, map[string]string{"unique": "u1|u2 u3|u4|k u4"}},
+		{`deviation /one/gl { deviate add { unique "k u4"; } } deviation /two/gl { deviate add { unique "k u1"; } }`, "/two/gl", false, map[string]string{"unique": "u1|u2 u3|u4|k u1"}},
 		// the default of a choice; a case as the target of not-supported
 		{`deviation /pick { deviate replace { default p2; } }`, "/pick", false, map[string]string{"default": "p2"}},
 		{`deviation /pick { deviate delete { default p1; } }`, "/pick", false, map[string]string{"default": ""}},
@@ -600,6 +608,16 @@ func c11deviations(c *core.Ctx) {
 			for _, l := range baseLines {
 				path := strings.SplitN(l, " ", 2)[0]
 				if path == dv.target || strings.HasPrefix(path, dv.target+"/") {
+					continue
+				}
+				// a statement with two deviations names a second target
+				second := false
+				for _, f := range strings.Split(dv.stmt, "deviation ")[1:] {
+					if t := strings.Fields(f)[0]; path == t || strings.HasPrefix(path, t+"/") {
+						second = true
+					}
+				}
+				if second {
 					continue
 				}
 				if !got[l] {
